@@ -1066,22 +1066,27 @@ func runC16Eval(args []string) error {
 	}
 	var res c16evalRes
 	if c.File {
-		res.Disk = c16EvalOne(interp.Options{GoPath: filepath.Join(*root, "gp")}, filepath.Join(*root, c.Entry, "p.go"), 20*time.Second)
-		res.MapFS = c16EvalOne(interp.Options{GoPath: "gp", SourcecodeFilesystem: mfs}, c.Entry+"/p.go", 20*time.Second)
+		res.Disk = c16EvalOne(interp.Options{GoPath: filepath.Join(*root, "gp")}, filepath.Join(*root, c.Entry, "p.go"), 90*time.Second)
+		res.MapFS = c16EvalOne(interp.Options{GoPath: "gp", SourcecodeFilesystem: mfs}, c.Entry+"/p.go", 90*time.Second)
 	} else {
-		res.Disk = c16EvalOne(interp.Options{GoPath: filepath.Join(*root, "gp")}, c.Entry, 20*time.Second)
-		res.MapFS = c16EvalOne(interp.Options{GoPath: "gp", SourcecodeFilesystem: mfs}, c.Entry, 20*time.Second)
+		res.Disk = c16EvalOne(interp.Options{GoPath: filepath.Join(*root, "gp")}, c.Entry, 90*time.Second)
+		res.MapFS = c16EvalOne(interp.Options{GoPath: "gp", SourcecodeFilesystem: mfs}, c.Entry, 90*time.Second)
 	}
 	return json.NewEncoder(os.Stdout).Encode(res)
 }
 
 // c16Run writes the program under a scratch root, runs the child (yaegi) and the reference (go run).
 func c16Run(c *c16case) (impl c16evalRes, ref c16out, err error) {
-	root, err := os.MkdirTemp("", "vh-c16-*")
+	top, err := os.MkdirTemp("", "vh-c16-*")
 	if err != nil {
 		return impl, ref, err
 	}
-	defer os.RemoveAll(root)
+	defer os.RemoveAll(top)
+	// the tree lives in top/t; yaegi runs in the empty directory top/cwd, so that nothing that
+	// bypasses the supplied filesystem can find the tree by accident
+	root := filepath.Join(top, "t")
+	cwd := filepath.Join(top, "cwd")
+	os.MkdirAll(cwd, 0o755)
 	for name, src := range c.files() {
 		full := filepath.Join(root, name)
 		if err := os.MkdirAll(filepath.Dir(full), 0o755); err != nil {
@@ -1099,11 +1104,11 @@ func c16Run(c *c16case) (impl c16evalRes, ref c16out, err error) {
 	}
 	self, _ := os.Executable()
 	{
-		ctx, cancel := context.WithTimeout(context.Background(), 60*time.Second)
+		ctx, cancel := context.WithTimeout(context.Background(), 200*time.Second)
 		cmd := exec.CommandContext(ctx, self, "c16-eval", "-root", root, cfile)
 		var out, errb bytes.Buffer
 		cmd.Stdout, cmd.Stderr = &out, &errb
-		cmd.Dir = root
+		cmd.Dir = cwd
 		rerr := cmd.Run()
 		cancel()
 		if json.Unmarshal(out.Bytes(), &impl) != nil || rerr != nil {
@@ -1112,7 +1117,7 @@ func c16Run(c *c16case) (impl c16evalRes, ref c16out, err error) {
 		}
 	}
 	{
-		ctx, cancel := context.WithTimeout(context.Background(), 120*time.Second)
+		ctx, cancel := context.WithTimeout(context.Background(), 300*time.Second)
 		arg := "."
 		if c.File {
 			arg = "p.go"
@@ -1123,7 +1128,11 @@ func c16Run(c *c16case) (impl c16evalRes, ref c16out, err error) {
 		var out, errb bytes.Buffer
 		cmd.Stdout, cmd.Stderr = &out, &errb
 		rerr := cmd.Run()
+		timedOut := ctx.Err() != nil
 		cancel()
+		if timedOut {
+			return impl, ref, fmt.Errorf("reference go run timed out in %s", cmd.Dir)
+		}
 		ref.Lines = c16Lines(out.String())
 		if rerr != nil {
 			msg := errb.String()
@@ -1376,7 +1385,9 @@ func runC16(args []string) error {
 		return err
 	}
 	thorough := *tier == "thorough"
-	g := &c16gen{r: newRng(*seed)}
+	// fork: newRng gives consecutive seeds the same stream shifted by one step, which a generator
+	// with retries re-synchronises on; the forked state is a mixed function of the seed
+	g := &c16gen{r: newRng(*seed).fork()}
 	sm := newSummary("C16")
 	distinct := distinctSet{}
 	id := 0
@@ -1460,6 +1471,13 @@ func runC16(args []string) error {
 				progs = append(progs, c)
 			}
 		}
+	}
+	if os.Getenv("VERIF_C16_DRY") != "" { // debugging aid: show what would be generated
+		for _, c := range progs {
+			b, _ := json.Marshal(c)
+			fmt.Println(string(b))
+		}
+		return nil
 	}
 	type runRes struct {
 		impl c16evalRes
